@@ -25,4 +25,14 @@ def tasks(tier, seed):
         func("bt.algos.Or.__call__"),
         func("bt.algos.Not.__call__"),
         func("bt.core.Strategy.run"),
+        dict(kind="custom", module="props.bounded", fn="run_script", script="c13_stacks", seed=seed, n=300 if tier == "quick" else 5000, props=["C13"]),
     ]
+
+
+def post(results, tier, seed):
+    b = [r["bounded"] for r in results if r.get("bounded")]
+    return None, dict(bounded_stand_ins=b, bounded_note="executable form of the same contracts run on the real interpreted code; never counted in obligations/discharged")
+
+
+def replay(o):
+    return o.get("replay_inline")
